@@ -20,16 +20,16 @@ var serKindNames = []string{"flat", "hnsw", "ivf", "pq", "ivfpq", "bm25", "metad
 // serState is one reachable state of one index kind together with everything needed to build a
 // matching (or deliberately mismatching) receiver and to interrogate both.
 type serState struct {
-	kind   string
-	desc   string
-	write  func(w io.Writer) (int64, error)   // serialise the source into one stream
-	fresh  func() serReceiver                 // receiver with identical construction parameters
-	vary   func() []serVariant                // receivers differing in exactly one parameter
-	answer func(x any) []string               // canonical complete answers of a fixed battery (source or receiver)
-	source any                                // the source index object
-	mutate func(rng *rand.Rand, x any, n int) // continuation history applied identically to source and reloaded
-	countsBytes bool                          // WriteTo returns a byte count (all but hybrid)
-	pendingTextDeletes bool                   // BM25 part holds soft-deleted documents that the implicit Flush of WriteTo will purge
+	kind               string
+	desc               string
+	write              func(w io.Writer) (int64, error)   // serialise the source into one stream
+	fresh              func() serReceiver                 // receiver with identical construction parameters
+	vary               func() []serVariant                // receivers differing in exactly one parameter
+	answer             func(x any) []string               // canonical complete answers of a fixed battery (source or receiver)
+	source             any                                // the source index object
+	mutate             func(rng *rand.Rand, x any, n int) // continuation history applied identically to source and reloaded
+	countsBytes        bool                               // WriteTo returns a byte count (all but hybrid)
+	pendingTextDeletes bool                               // BM25 part holds soft-deleted documents that the implicit Flush of WriteTo will purge
 }
 
 type serReceiver struct {
@@ -254,6 +254,9 @@ func buildSerState(rng *rand.Rand, kind string, allowEmpty bool) (*serState, err
 			g := newVecGen(rng, s.dim)
 			ig := newIDGen(rng)
 			ig.min = 1 << 28
+			for id := range ids.used { // never re-issue an id the state already holds (distinct ids are part of the quantifier)
+				ig.used[id] = true
+			}
 			var mine []uint32
 			cur := append([]uint32(nil), live...)
 			resident := len(cur)
@@ -336,6 +339,9 @@ func buildSerState(rng *rand.Rand, kind string, allowEmpty bool) (*serState, err
 			g := newTextGen(rng)
 			ig := newIDGen(rng)
 			ig.min = 1 << 28
+			for id := range ids.used { // never re-issue an id the state already holds (distinct ids are part of the quantifier)
+				ig.used[id] = true
+			}
 			cur := append([]uint32(nil), live...)
 			for i := 0; i < n; i++ {
 				switch {
@@ -422,6 +428,9 @@ func buildSerState(rng *rand.Rand, kind string, allowEmpty bool) (*serState, err
 			ix := x.(*comet.RoaringMetadataIndex)
 			ig := newIDGen(rng)
 			ig.min = 1 << 28
+			for id := range ids.used { // never re-issue an id the state already holds (distinct ids are part of the quantifier)
+				ig.used[id] = true
+			}
 			cur := m.liveIDs()
 			for i := 0; i < n; i++ {
 				if rng.IntN(3) > 0 || len(cur) == 0 {
@@ -540,6 +549,9 @@ func buildSerState(rng *rand.Rand, kind string, allowEmpty bool) (*serState, err
 			hx := x.(comet.HybridSearchIndex)
 			g, t, ig := newVecGen(rng, dim), newTextGen(rng), newIDGen(rng)
 			ig.min = 1 << 28
+			for id := range ids.used { // never re-issue an id the state already holds (distinct ids are part of the quantifier)
+				ig.used[id] = true
+			}
 			cur := sortedKeys(h.docs)
 			for i := 0; i < n; i++ {
 				switch {
